@@ -6,9 +6,17 @@ SumMarginalLogLikelihood; (c) evaluates determinant, quadratic form and the leav
 rationals and proves the bordered LOO formulas and the elimination path equal them; (d) enumerates the float64 cells.
 The replay decodes distinguishable stub terms from the real ExactMarginalLogLikelihood / LeaveOneOutPseudoLikelihood /
 SumMarginalLogLikelihood, pushes the rational instances through real ExactGP + LinearKernel, and compares value and the
-gradient w.r.t. every raw hyperparameter with a dense torch.linalg reference on seeded float64 instances."""
+gradient w.r.t. every raw hyperparameter with a dense torch.linalg reference on seeded float64 instances.
+(e) part "history": a state machine over how each prior was registered (constructor argument / closure + setting closure /
+parameter name) and over the operations on the model objects before the objective is evaluated (set hyperparameters,
+copy.deepcopy, fresh model + load_state_dict, pickle round trip); TLC proves that every prior term reads the current value of
+THIS object's parameter under the semantics Python gives bound methods and functions, and every reachable history is
+replayed into the real classes: value (stub digits) and gradient of both objectives for every live object."""
+import copy
+import io
 import math
 import os
+import pickle
 import random
 from fractions import Fraction
 
@@ -47,16 +55,19 @@ def tla(v):
     raise TypeError(v)
 
 
-def write_mc(workdir, name, part, repairs=(), archs=("plain",), batches=((),), ns=(3,), maxmodels=1, instances=(), invariants=()):
+def write_mc(workdir, name, part, repairs=(), archs=("plain",), batches=((),), ns=(3,), maxmodels=1, instances=(), invariants=(),
+             regmenu=(), histlen=0, maxobjs=1, maxgen=0, sethows=("setter",), slips=()):
     os.makedirs(workdir, exist_ok=True)
     mod = "MC_ExactObjective_" + name
     with open(os.path.join(workdir, mod + ".tla"), "w") as f:
-        f.write("---- MODULE %s ----\nEXTENDS ExactObjective\nBatchesDef == {%s}\nInstDef == {%s}\n====\n" % (
-            mod, ", ".join(tla(list(b)) for b in batches), ",\n  ".join(tla(i) for i in instances)))
+        f.write("---- MODULE %s ----\nEXTENDS ExactObjective\nBatchesDef == {%s}\nInstDef == {%s}\nRegMenuDef == {%s}\n====\n" % (
+            mod, ", ".join(tla(list(b)) for b in batches), ",\n  ".join(tla(i) for i in instances), ", ".join(tla(list(r)) for r in regmenu)))
     cfg = os.path.join(workdir, mod + ".cfg")
     tlc.write_cfg(cfg, spec="Spec",
                   constants={"Part": part, "Repairs": set(repairs), "Archs": set(archs), "Batches": "<- BatchesDef",
-                             "Ns": tlc.Raw("{" + ", ".join(map(str, ns)) + "}"), "MaxModels": maxmodels, "Instances": "<- InstDef"},
+                             "Ns": tlc.Raw("{" + ", ".join(map(str, ns)) + "}"), "MaxModels": maxmodels, "Instances": "<- InstDef",
+                             "RegMenu": "<- RegMenuDef", "HistLen": histlen, "MaxObjs": maxobjs, "MaxGen": maxgen,
+                             "SetHows": set(sethows), "Slips": set(slips)},
                   invariants=list(invariants))
     return os.path.join(workdir, mod + ".tla"), cfg
 
@@ -128,6 +139,10 @@ def stubs(torch, gpytorch):
         def loss(self, *params):
             return self.value
 
+    # importable by name: models of part "history" go through pickle
+    StubPrior.__module__ = StubLoss.__module__ = __name__
+    StubPrior.__qualname__, StubLoss.__qualname__ = "StubPrior", "StubLoss"
+    globals().update(StubPrior=StubPrior, StubLoss=StubLoss)
     _STUBS.update(prior=StubPrior, loss=StubLoss)
     return StubPrior, StubLoss
 
@@ -224,10 +239,10 @@ def build_asm(torch, gpytorch, cf, seed):
     return model, lik, x, y, T
 
 
-def main_terms(torch, model, lik, x, y, obj, T):
+def main_terms(torch, model, lik, x, y, obj, T, grad=False):
     """main term of the objective per batch element from the model's own dense marginal: log N(y; m, K+S) for the MLL,
     sum_i [log p(y_i | y_-i) + log(2 pi)/2] for LOO (explicit deletion)"""
-    with torch.no_grad():
+    with torch.enable_grad() if grad else torch.no_grad():
         marg = lik(model(x))
         A = marg.covariance_matrix
         B = tuple(y.shape[:-2]) if T > 1 else tuple(y.shape[:-1])
@@ -408,7 +423,251 @@ def run_rat(torch, gpytorch, case):
     return res
 
 
-RUNNERS = {"asm": run_asm, "sum": run_sum, "rat": run_rat}
+# ---------------------------------------------------------------------------------------------
+# part "history": registration forms x object histories
+# the closure form of register_prior: plain functions of the module (importable, so that the model can be pickled)
+def _get_noise(m):
+    return m.noise
+
+
+def _set_noise(m, v):
+    m._set_noise(v)
+
+
+def _get_constant(m):
+    return m.constant
+
+
+def _set_constant(m, v):
+    m.constant = v
+
+
+def _get_outputscale(m):
+    return m.outputscale
+
+
+def _set_outputscale(m, v):
+    m._set_outputscale(v)
+
+
+def _get_lengthscale(m):
+    return m.lengthscale
+
+
+def _set_lengthscale(m, v):
+    m._set_lengthscale(v)
+
+
+HIST_REG = (("noise_prior", "noise", _get_noise, _set_noise), ("mean_prior", "constant", _get_constant, _set_constant),
+            ("outputscale_prior", "outputscale", _get_outputscale, _set_outputscale),
+            ("lengthscale_prior", "lengthscale", _get_lengthscale, _set_lengthscale))
+
+
+def hist_model_class(gpytorch):
+    if "HistModel" not in _STUBS:
+        class HistModel(gpytorch.models.ExactGP):
+            def __init__(s, x, y, lik, mean, covar):
+                super().__init__(x, y, lik)
+                s.mean_module = mean
+                s.covar_module = covar
+
+            def forward(s, inp):
+                return gpytorch.distributions.MultivariateNormal(s.mean_module(inp), s.covar_module(inp))
+
+        HistModel.__module__, HistModel.__qualname__ = __name__, "HistModel"
+        globals()["HistModel"] = HistModel
+        _STUBS["HistModel"] = HistModel
+    return _STUBS["HistModel"]
+
+
+def hist_own(h):
+    """batch shape of the parameter of every slot (registered priors sit on parameters with the batch shape of the objective)"""
+    B = tuple(h["B"])
+    own = [B if h["reg"][k] != "none" else () for k in range(4)]
+    if own[3]:
+        own[2] = own[3]            # a ScaleKernel takes over the batch shape of its base kernel
+    return own
+
+
+def hist_parts(model, arch):
+    """(module that owns the parameter, attribute) of the four slots of THIS model object"""
+    os_mod = model.covar_module if arch == "plain" else model.covar_module.kernels[0]
+    return [(model.likelihood.noise_covar, "noise"), (model.mean_module, "constant"), (os_mod, "outputscale"), (os_mod.base_kernel, "lengthscale")]
+
+
+def hist_set(torch, model, h, g, how, gpytorch=None, seed=0):
+    """hyperparameters of generation g: through the public setters, in place on the raw parameters, or by loading (in place)
+    the state_dict of a scratch model that has them"""
+    own, tails = hist_own(h), TAILS[h["arch"]]
+    if how == "state_dict":
+        scratch = build_hist(torch, gpytorch, h, seed)[0]
+        hist_set(torch, scratch, h, g, "setter")
+        model.load_state_dict(scratch.state_dict())
+    parts = hist_parts(model, h["arch"])
+    for k, (mod, attr) in enumerate(parts):
+        want = values(torch, own[k], tails[k]) + float(g)
+        if how == "state_dict":
+            pass
+        elif how == "raw":
+            raw = getattr(mod, "raw_" + attr)
+            con = getattr(mod, "raw_" + attr + "_constraint", None)
+            with torch.no_grad():
+                raw.copy_((con.inverse_transform(want) if con is not None else want).reshape(raw.shape))
+        else:
+            setattr(mod, attr, want)
+        got = getattr(mod, attr)
+        if tuple(got.shape) != tuple(want.shape) or float((got.detach() - want).abs().max()) > 1e-9:
+            raise core.Machinery("could not set %s of %s to %s by %s (reads back %s)" % (attr, h, want.tolist(), how, got.tolist()))
+
+
+def objectives(gpytorch, model):
+    return dict(mll=gpytorch.mlls.ExactMarginalLogLikelihood(model.likelihood, model), loo=gpytorch.mlls.LeaveOneOutPseudoLikelihood(model.likelihood, model))
+
+
+def build_hist(torch, gpytorch, h, seed):
+    """a model of configuration h at generation 0, every prior registered in the form the configuration names; returns the
+    model and the objective objects made right after its construction (before the register_prior calls, before set)"""
+    StubPrior, _ = stubs(torch, gpytorch)
+    Model = hist_model_class(gpytorch)
+    D = torch.float64
+    B, n, reg = tuple(h["B"]), h["n"], h["reg"]
+    own = [torch.Size(o) for o in hist_own(h)]
+    g = torch.Generator().manual_seed(seed)
+    x = torch.rand(*B, n, 2, generator=g, dtype=D)
+    y = torch.randn(*B, n, generator=g, dtype=D)
+    P = [StubPrior(10 ** k) if reg[k] != "none" else None for k in range(4)]
+    ctor = [P[k] if reg[k] == "ctor" else None for k in range(4)]
+    K = gpytorch.kernels
+    lik = gpytorch.likelihoods.GaussianLikelihood(noise_prior=ctor[0], batch_shape=own[0])
+    mean = gpytorch.means.ConstantMean(constant_prior=ctor[1], batch_shape=own[1])
+    base = K.RBFKernel(ard_num_dims=2, lengthscale_prior=ctor[3], batch_shape=own[3])
+    os_mod = K.ScaleKernel(base, outputscale_prior=ctor[2], batch_shape=own[2])
+    covar = os_mod if h["arch"] == "plain" else os_mod + K.ScaleKernel(base)      # shared: the SAME base kernel object on two paths
+    model = Model(x, y, lik, mean, covar).to(D)
+    early = objectives(gpytorch, model)
+    for k, (mod, _) in enumerate(hist_parts(model, h["arch"])):
+        pname, attr, getter, setter = HIST_REG[k]
+        if reg[k] == "closure":
+            mod.register_prior(pname, P[k], getter, setter)
+        elif reg[k] == "name":
+            mod.register_prior(pname, P[k], attr)
+    hist_set(torch, model, h, 0, "setter")
+    model.train()
+    return model, early
+
+
+def hist_apply(torch, gpytorch, h, objs, op, seed, gen_of):
+    """objs: list of (model object, objective objects made when it came into existence)"""
+    src = objs[op["on"] - 1][0]
+    if op["op"] == "set":
+        hist_set(torch, src, h, gen_of, op["how"], gpytorch, seed)
+    elif op["op"] == "copy":
+        new = copy.deepcopy(src)
+        objs.append((new, objectives(gpytorch, new)))
+    elif op["op"] == "pickle":
+        new = pickle.loads(pickle.dumps(src))
+        objs.append((new, objectives(gpytorch, new)))
+    elif op["op"] == "load":
+        new, early = build_hist(torch, gpytorch, h, seed)
+        new.load_state_dict(src.state_dict())
+        objs.append((new, early))
+    else:
+        raise core.Machinery("unknown operation %r" % (op,))
+
+
+def hist_desc(h, ops):
+    regs = {SITES[h["arch"]][k]: h["reg"][k] for k in range(4) if h["reg"][k] != "none"}
+    steps = ["%s(%d%s)" % (o["op"], o["on"], "," + o["how"] if o["op"] == "set" else "") for o in ops] or ["fresh"]
+    return "arch=%s batch=%s N=%d priors registered by %s history=%s" % (h["arch"], list(h["B"]), h["n"], regs, " ; ".join(steps))
+
+
+def run_hist(torch, gpytorch, case):
+    h, ops, exp = case["h"], case["hist"], case["exp"]
+    B = tuple(h["B"])
+    desc = hist_desc(h, ops)
+    opsig = "-".join(o["op"] for o in ops) or "fresh"
+    nontrivial = any(f != "none" for f in h["reg"]) and len(ops) > 0
+    res = dict(key=["hist", h, ops], ok=True, nontrivial=nontrivial, n=0,
+               sample=dict(configuration=desc, expected_other_terms_per_object=[o["exp"] for o in exp["objs"]]))
+
+    def fail(objective, sym, detail):
+        res.update(ok=False, sig="C02/history/%s/%s/%s/%s" % (h["arch"], opsig, objective, sym), detail=desc + ": " + detail, case=case)
+        return res
+
+    # the operations are part of the scenario: an exception inside them is a failure of the library on this history
+    objs = []
+    ok, err = core.guarded(lambda: objs.append(build_hist(torch, gpytorch, h, case["seed"])))     # (model, early objectives)
+    if not ok:
+        if "Machinery" in str(err):
+            raise core.Machinery(str(err))
+        return fail("build", "raises", "building the model raised %s" % err)
+    gen = 0
+    for i, op in enumerate(ops):
+        if op["op"] == "set":
+            gen += 1
+        ok, err = core.guarded(lambda: hist_apply(torch, gpytorch, h, objs, op, case["seed"], gen))
+        if not ok:
+            if "Machinery" in str(err):
+                raise core.Machinery(str(err))
+            return fail(op["op"], "raises", "operation %d (%s) raised %s" % (i + 1, op["op"], err))
+    if len(objs) != len(exp["objs"]):
+        raise core.Machinery("replay made %d objects, the specification %d: %s" % (len(objs), len(exp["objs"]), desc))
+    own, tails = hist_own(h), TAILS[h["arch"]]
+    for oi, ((model, early), eo) in enumerate(zip(objs, exp["objs"])):
+        who = "object %d (hyperparameters of generation %d)" % (oi + 1, eo["gen"])
+        lik = model.likelihood
+        x, y = model.train_inputs[0], model.train_targets
+        named = list(model.named_parameters())
+        params = [p_ for _, p_ in named]
+        parts = hist_parts(model, h["arch"])
+        # the current constrained values of THIS object are those of its generation (spec: HPrior)
+        for k, (mod, attr) in enumerate(parts):
+            want = values(torch, own[k], tails[k]) + float(eo["gen"])
+            got = getattr(mod, attr).detach()
+            if tuple(got.shape) != tuple(want.shape) or float((got - want).abs().max()) > 1e-9:      # persistence of state is C18's subject
+                raise core.Machinery("%s: %s: %s reads %s, the history leaves it at %s" % (desc, who, SITES[h["arch"]][k], got.tolist(), want.tolist()))
+        model.train()
+        late = objectives(gpytorch, model)
+        for objective, hc in (("mll", 0), ("loo", -1)):
+            main = main_terms(torch, model, lik, x, y, objective, 1, grad=True)
+            want = [float(v) for v in eo["exp"]]
+            # gradient: autograd of the dense definition written over the parameters of THIS object
+            total = main
+            for k, (mod, attr) in enumerate(parts):
+                if h["reg"][k] != "none":
+                    total = total + dense.per_batch_sum((10.0 ** k) * getattr(mod, attr), B)
+            ref = total / exp["div"] + hc * H
+            gref = torch.autograd.grad(ref.sum(), params, allow_unused=True)
+            for made in exp["made"]:
+                fn = (early if made == "built" else late)[objective]
+                tag = objective if made == "evaluated" else objective + "-made-at-build"
+                whom = "%s, objective object made when %s" % (who, "the model object was made" if made == "built" else "it is evaluated")
+
+                def code():
+                    v = fn(model(x), y)
+                    return v, torch.autograd.grad(v.sum(), params, allow_unused=True)
+                ok, r = core.guarded(code)
+                if not ok:
+                    return fail(tag, "raises", "%s: objective raised %s" % (whom, r))
+                val, gcode = r
+                if tuple(val.shape) != B:
+                    return fail(tag, "shape", "%s: objective has shape %s, batch shape is %s" % (whom, list(val.shape), list(B)))
+                got = ((val.detach().reshape(-1) - hc * H) * exp["div"] - main.detach().reshape(-1)).tolist()
+                res["n"] += 1
+                if not all(abs(a - b) <= 1e-6 for a, b in zip(got, want)):
+                    return fail(tag, "terms", "%s: N_obs * objective - main term = %s per batch element, definition (every prior at the current value of "
+                                "this object's parameter) %s" % (whom, [decode(v, h["arch"]) for v in got], [decode(v, h["arch"]) for v in want]))
+                for (name, p_), gc, gr in zip(named, gcode, gref):
+                    gc = torch.zeros_like(p_) if gc is None else gc
+                    gr = torch.zeros_like(p_) if gr is None else gr
+                    g_, why = core.close(gc, gr, 1e-7, 1e-9)
+                    res["n"] += 1
+                    if not g_:
+                        return fail(tag, "grad", "%s: gradient w.r.t. %s is %s, autograd of the dense definition %s (%s)" % (whom, name, gc.reshape(-1).tolist(), gr.reshape(-1).tolist(), why))
+    return res
+
+
+RUNNERS = {"asm": run_asm, "sum": run_sum, "rat": run_rat, "hist": run_hist}
 
 
 def _worker(item):
@@ -419,13 +678,36 @@ def _worker(item):
         _verif.events.clear()
     except Exception:
         pass
+    import time
     out = []
     for case in item:
+        t0 = time.process_time()
         if case["kind"] == "dense":
             out.append(dense.run_cell(torch, gpytorch, case))
         else:
             out.append(RUNNERS[case["kind"]](torch, gpytorch, case))
+        out[-1]["cpu"] = (case["kind"], time.process_time() - t0)
     return out
+
+
+# how the priors of the four slots (noise, mean constant, outputscale, lengthscale) are registered
+REG_MENU = (("ctor",) * 4, ("closure",) * 4, ("name",) * 4, ("ctor", "closure", "name", "none"))
+REG_MENU_THOROUGH = REG_MENU + (("name", "none", "ctor", "closure"), ("none", "none", "name", "closure"))
+
+
+def check_slip_counterexample(ck, r):
+    """the run with Slips = {name_captures_self} must end in a counterexample to HistoryOK that registers by name, deep-copies
+    and changes hyperparameters: otherwise the invariant (or the machine) does not see the class of defect it is there for"""
+    v = r.violation
+    if not v or v.get("name") != "HistoryOK":
+        ck.vacuous("ExactObjective history machine with the slip name_captures_self: TLC found no counterexample to HistoryOK")
+        return
+    last = plain(v["trace"][-1][1] if isinstance(v["trace"][-1], (tuple, list)) else v["trace"][-1])
+    ops = [o["op"] for o in last["c"]["hist"]]
+    if "name" not in last["c"]["h"]["reg"] or "copy" not in ops or "set" not in ops:
+        ck.vacuous("counterexample of the slip run is not register-by-name / deepcopy / set: %s %s" % (last["c"]["h"]["reg"], ops))
+    ck.extra["slip_counterexample"] = dict(slip="name_captures_self", registered=last["c"]["h"]["reg"], history=last["c"]["hist"],
+                                           objects=[dict(definition=o["exp"], code_with_slip=o["code"], closure_reads_object=o["reads"]) for o in last["out"]["objs"]])
 
 
 # ---------------------------------------------------------------------------------------------
@@ -439,8 +721,14 @@ def run(ck):
                "from the real objective and compared with the declarative sum; non-trivial = at least one prior or added loss term present.  "
                "sum: every sequence of member models up to the bound; non-trivial = more than one member.  rational: seeded integer instances, "
                "distinct by construction; non-trivial = n >= 2 and a non-diagonal kernel matrix.  dense: every lattice cell (kernel x mean x "
-               "likelihood x batch x prior assignment x objective x solver setting) x seeds, value and gradient w.r.t. every raw hyperparameter; "
-               "non-trivial = all; distinct = cells")
+               "likelihood x batch x prior assignment x objective x solver setting x {priors given to the constructors, registered by parameter name} x "
+               "{fresh, deep copy then other hyperparameters, fresh model that loaded a state_dict}) x seeds, value and gradient w.r.t. every raw "
+               "hyperparameter; non-trivial = all; distinct = cells.  history: every reachable state of the machine of part \"history\" (registration "
+               "menu over {none, constructor argument, closure + setting closure, parameter name} per site x module DAG x batch shape x every sequence "
+               "of <= 3 operations from {set hyperparameters, copy.deepcopy, fresh model + load_state_dict, pickle round trip} on <= 3 objects), for "
+               "EVERY live object: stub digits of both objectives (objective object made with the model / made at evaluation) against the values of "
+               "that object's own parameters, and the gradient w.r.t. every raw hyperparameter against autograd of the dense definition; non-trivial = "
+               "at least one prior and at least one operation")
     ck.assumptions = [
         "exact Cholesky paths only: gpytorch.settings.fast_computations(log_prob=False) and the default setting below max_cholesky_size; the stochastic "
         "CG/Lanczos estimate 'within its statistical tolerance' is not decided",
@@ -452,6 +740,11 @@ def run(ck):
         "float64, 4-7 points (dense) / 2-3 points (assembly), noise >= 0.3 of a signal variance <= 2.7, cond(K+S) <= 1e4 verified on the oracle side",
         "real priors are constructed with float64 tensor parameters (with python floats LogNormalPrior evaluates log(scale) in float32; that is the prior's business)",
         "stub priors are linear in the value they are given, so a prior evaluated at the raw instead of the constrained value decodes to a non-integer",
+        "histories: single-output models (one kernel / one kernel object on two paths), every registered prior on a parameter that carries the batch "
+        "shape of the objective; the closure form uses importable functions (a lambda cannot be pickled - the user's business)",
+        "pickle round trips are enumerated for models without name-registered priors only: the function Module.register_prior makes for a parameter "
+        "name is local to it and pickle refuses it on the unchanged tree (known finding of C18, not a statement of C02)",
+        "a model object whose parameters do not read back the values its history leaves them at is a machinery failure here (persistence is C18's subject)",
     ]
     wd = os.path.join(tlc.BUILD, PID)
     archs = ("plain", "shared", "mtask")
@@ -475,22 +768,40 @@ def run(ck):
             ns=ns, invariants=cur_inv + ["AssemblyOK"], workers=4)
     job("sum", "SumMarginalLogLikelihood", "sum", True, repairs=REPAIRS_IN_TREE, ns=(2, 3), maxmodels=3 if thorough else 2, invariants=["SumOK"], workers=2)
     job("lattice", "dense lattice", "lattice", True, invariants=["LatticeOK"], workers=1)
+    # ---- history machine: registration forms x operations on the model objects
+    hist_archs = ("plain", "shared") if "prior_memo" in REPAIRS_IN_TREE else ("plain",)
+    hist_kw = dict(repairs=REPAIRS_IN_TREE, ns=(3,), regmenu=REG_MENU_THOROUGH if thorough else REG_MENU, histlen=3, maxobjs=3, maxgen=2,
+                   sethows=("setter", "raw", "state_dict") if thorough else ("setter",))
+    for a in hist_archs:
+        for b in ((((), (2,), (2, 2)) if a == "plain" else ((), (2,))) if thorough else (((2,),) if a == "plain" else ((),))):
+            job("hist_%s_B%d" % (a, len(b)), "history %s batch %s" % (a, list(b)), "history", True, archs=(a,), batches=(b,),
+                invariants=["HistoryOK", "ReadsThis"], workers=2, **hist_kw)
+    # the same machine with the slip "the function made for a parameter name reads the registering module": HistoryOK must fail
+    job("hist_slip", "history with the slip name_captures_self (a counterexample is required)", "history", False, archs=("plain",), batches=((),),
+        invariants=["HistoryOK"], workers=1, slips=("name_captures_self",), **dict(hist_kw, regmenu=REG_MENU, sethows=("setter",)))
     for p in range(parts):
         job("rational_%d" % p, "rational instances %d" % p, "rational", True, instances=insts[p::parts], invariants=["RationalOK"], workers=3)
-    rs = tlc.run_many(jobs, parallel=len(jobs))
+    import time
+    t_tlc = time.time()
+    rs = tlc.run_many(jobs, parallel=int(os.environ.get("VERIF_C02_TLC_PARALLEL", len(jobs))))
+    t_tlc = time.time() - t_tlc
     by = dict(zip([j[1]["name"].split("/", 1)[1] for j in jobs], rs))
-    for lab, r in zip(labels, rs):
+    for lab, r, jb in zip(labels, rs, jobs):
         ck.add_tlc(r, "ExactObjective " + lab)
+        if jb[1]["name"].endswith("/hist_slip"):
+            check_slip_counterexample(ck, r)
+            continue
         if r.violation:
             # every invariant is a statement about the specification alone (the transcribed code of the tree enters the replay as data: out.agree)
             raise tlc.TLCError("ExactObjective.tla %s violates %s: %s" % (lab, r.violation["name"], str(r.violation["trace"][-1:])[:600]))
         if r.rc != 0:
             raise tlc.TLCError("TLC failed on ExactObjective %s:\n%s" % (lab, r.stdout[-1500:]))
-        ck.require_coverage(r, ["Evaluate"])
+        ck.require_coverage(r, ["Operate" if "/hist_" in jb[1]["name"] else "Evaluate"])
     r_asm = [by["asm_" + a] for a in archs]
     r_sum, r_lat = by["sum"], by["lattice"]
     r_rat = [by["rational_%d" % p] for p in range(parts)]
-    ck.extra["exhaustive_parts"] = ["assembly lattice", "SumMarginalLogLikelihood member sequences up to the bound", "cells of the dense lattice"]
+    ck.extra["exhaustive_parts"] = ["assembly lattice", "SumMarginalLogLikelihood member sequences up to the bound", "cells of the dense lattice",
+                                    "histories up to 3 operations / 3 objects / 2 changes of the hyperparameters over the registration menu"]
     ck.extra["sampled_parts"] = ["rational instances (seeded)", "float64 data / hyperparameters per dense cell (seeded)"]
 
     def evaluated(res):
@@ -545,11 +856,35 @@ def run(ck):
     if ncell == 0:
         ck.vacuous("no dense lattice cells generated")
     ck.section("dense", cells=ncell, seeds_per_cell=nseeds)
+    # ---- histories: every reachable state of the machine is one history
+    nhist, forms_seen, ops_seen = 0, set(), set()
+    for name_, r in by.items():
+        if not name_.startswith("hist_") or name_ == "hist_slip":
+            continue
+        for st in r.states():
+            c, out = plain(st["c"]), plain(st["out"])
+            if any(o["code"] != o["exp"] for o in out["objs"]):
+                raise core.Machinery("history state with a misread prior passed the invariant: %s" % out)
+            forms_seen.update(c["h"]["reg"])
+            ops_seen.update(o["op"] for o in c["hist"])
+            cases.append(dict(kind="hist", h=c["h"], hist=c["hist"], exp=dict(objs=[dict(gen=o["gen"], exp=o["exp"]) for o in out["objs"]], div=out["div"], made=out["made"]),
+                              seed=ck.seed * 7919 + len(cases)))
+            nhist += 1
+    if forms_seen != {"none", "ctor", "closure", "name"} or ops_seen != {"set", "copy", "load", "pickle"}:
+        ck.vacuous("history machine: registration forms %s / operations %s reached" % (sorted(forms_seen), sorted(ops_seen)))
+    ck.section("history", histories=nhist, registration_forms=sorted(forms_seen), operations=sorted(ops_seen))
 
     rnd.shuffle(cases)
     chunk = 12
     items = [cases[i:i + chunk] for i in range(0, len(cases), chunk)]
+    t_rep = time.time()
     results = core.pmap(_worker, items, chunksize=1)
+    ck.extra["phase_wall_s"] = dict(tlc=round(t_tlc, 1), replay=round(time.time() - t_rep, 1))
+    cpu = {}
+    for r in results:
+        k, t = r.pop("cpu", ("?", 0.0))
+        cpu[k] = cpu.get(k, 0.0) + t
+    ck.extra["replay_cpu_s_by_kind"] = {k: round(v, 1) for k, v in sorted(cpu.items())}
     ck.absorb(results)
     # ---- predictions of the code-shaped model vs the real code
     asm = [r for r in results if r.get("key", [None])[0] == "asm"]
